@@ -6,6 +6,7 @@ import LlirModel.Drv.TypeOps
 import LlirModel.Drv.TypingOps
 import LlirModel.Drv.NumOps
 import LlirModel.Drv.MdOps
+import LlirModel.Drv.ModOps
 open Llir Llir.Drv
 
 def dispatch (op : String) (args : List String) : String :=
@@ -31,6 +32,9 @@ def dispatch (op : String) (args : List String) : String :=
   | some r => r
   | none =>
   match mdOps op args with
+  | some r => r
+  | none =>
+  match modOps op args with
   | some r => r
   | none => "unknown-op"
 
